@@ -122,7 +122,7 @@ def allformat_read_campaign(ctx, stride=1, nops=30, channels=(1, 2, 3), route_sk
         stats["histories"] += 1
         stats["ops"] += nops
         ref = {ty: (info["ref"][ty] + ["?"] * (F * ch))[:F * ch] for ty in R.TYS}
-        probs = R.check_test_phase(t, out2.get(name, []), ch, F, ref, info.get("seekable", True))
+        probs = R.check_test_phase(t, out2.get(name, []), ch, F, ref, info.get("seekable", True), bw=R.raw_bw(f, ch), filehex=info.get("filehex"))
         for (k, text, cat) in probs[:3]:
             findings.append(Finding("pred" if cat != "crash" else "crash", name, t, k, text, cat, f, ch))
     return findings, stats
